@@ -33,7 +33,7 @@ def runner(prop, job, shard, seed, tier, outdir, env):
         shutil.copy(lock_src, os.path.join(rig, "Cargo.lock"))
     e = dict(env)
     e["CARGO_TARGET_DIR"] = os.path.join(env["VH_VERIF"], "target", "miri")
-    e.pop("RUSTFLAGS", None)
+    e["RUSTFLAGS"] = "--cfg rescrv_blue_verif"  # the memtable workload needs hook H7; same build for all
     triples = [(w, p, s) for w in workloads for p in range(progs) for s in range(scheds)]
     mine = [t for i, t in enumerate(triples) if i % job["shards"] == shard]
     rep = {"evaluations": 0, "counters": {}, "samples": [], "notes": {}, "inconclusive": [],
